@@ -233,7 +233,13 @@ class DiskImageContentInjector(DiskImageWorker):
             if (
                 os.path.basename(src.upper()) != "--EOS"
                 and os.path.exists(cleanSrc)
-                and os.path.abspath(cleanSrc) == os.path.abspath(args.archive)
+                and (
+                    os.path.abspath(cleanSrc) == os.path.abspath(args.archive)
+                    or (
+                        os.path.exists(args.archive)
+                        and os.path.samefile(cleanSrc, args.archive)
+                    )
+                )
             ):
                 raise ValueError(f"source.is.the.archive:{cleanSrc}")
 
